@@ -31,6 +31,11 @@ def setup(extra=()):
             sys.path.remove(REPO)
         sys.path.insert(0, REPO)
     from binja_test_mocks import binja_api  # noqa: F401
+    if os.environ.get("SYMX_NO_SHIMS") == "1":
+        # replay mode without instrumentation: plain imports of the real modules
+        mods = [importlib.import_module(name) for name in list(SHIMMED) + list(extra)]
+        _done = True
+        return mods
     from . import shims
     if os.environ.get("SYMX_NO_CONSTMERGE") != "1":
         from . import astpass
